@@ -74,6 +74,8 @@ type FnCtx struct {
 	notes    []string
 	bound    []string // names of quantifier-bound variables currently in scope
 	mapAx    map[string]bool
+	factSeen map[string]bool
+	ghosts   map[string]Val // ghost parameters of the function under verification
 }
 
 func (c *FnCtx) fresh(prefix, sort string) *Term {
@@ -94,6 +96,14 @@ func (c *FnCtx) addFact(t *Term) {
 	if len(c.bound) > 0 && mentionsAny(t, c.bound) {
 		return // side fact about a quantifier-bound term: dropping an assumption is sound
 	}
+	if c.factSeen == nil {
+		c.factSeen = map[string]bool{}
+	}
+	k := t.String()
+	if c.factSeen[k] {
+		return
+	}
+	c.factSeen[k] = true
 	c.facts = append(c.facts, t)
 }
 
@@ -138,7 +148,11 @@ func (c *FnCtx) oblige(kind, label string, tags []string, guard, goal *Term, pos
 	c.ordinals[kind]++
 	o := &Obligation{Name: c.oblName(kind, label), Kind: kind, Func: c.name, Tags: tags, Goal: goal, Guard: guard, NFacts: len(c.facts), Pos: pos, Src: src, ctx: c}
 	c.obls = append(c.obls, o)
-	c.assume(guard, goal)
+	// assert-then-assume, but only for obligations checked under every property of the function:
+	// a clause tagged for one property must not become a silent premise of another property's proof
+	if tagsCover(tags, c.tags) {
+		c.assume(guard, goal)
+	}
 }
 
 func (c *FnCtx) oblName(kind, label string) string {
@@ -279,6 +293,10 @@ func (c *FnCtx) allocObj(st *State) *Term {
 }
 
 func constArr(sort string, v *Term) *Term {
+	if ArrElem(sort) == SStr {
+		// cvc5 only accepts values in constant arrays; the prelude axiomatises these
+		return Var("zarr_"+ArrIdx(sort)+"_Str", sort)
+	}
 	return App("(as const "+sort+")", sort, v)
 }
 
@@ -493,4 +511,13 @@ func inLocs(locs []modLoc, root types.Type, leaf int, obj, idx *Term) *Term {
 		}
 	}
 	return Or(alts...)
+}
+
+func tagsCover(tags, all []string) bool {
+	for _, t := range all {
+		if !hasTag(tags, t) {
+			return false
+		}
+	}
+	return true
 }
